@@ -33,9 +33,20 @@ def run(chk) -> None:
     )
     chk.trusted = ["CPython ast", "functools.cached_property writes only its own slot", "external calls (pulp, graphviz, re) do not mutate BpSeq state"]
     chk.assumptions = ["callers outside the library do not mutate returned containers"]
-    chk.robust |= {"receiver-write", "cache-introspection", "pk-class", "isolated-select", "isolated-unpair", "isolated-copy", "foreign-write"}
+    chk.robust |= {"receiver-write", "cache-introspection", "pk-class", "isolated-select", "isolated-unpair", "isolated-copy", "foreign-write", "derived-sequence", "history-independent"}
     check_effects(chk)
-    check_removals(chk)
+    # the removal rules, the "sequence unchanged" clause and call histories: evaluated (checks/c01e.py); pinned forms as the fallback
+    from checks import c01e
+
+    if not c01.fact_first(chk, "without-pseudoknots", repo.func(MOD, "BpSeq.without_pseudoknots").where, c01e.pseudoknots_fact(chk)):
+        check_pseudoknots_pinned(chk)
+    if not c01.fact_first(chk, "from-dotbracket", repo.func(MOD, "BpSeq.from_dotbracket").where, c01e.from_dotbracket_fact(chk, "derived-sequence")):
+        pass  # C01's L8 reads the pinned form
+    if not c01.fact_first(chk, "without-isolated", repo.func(MOD, "BpSeq.without_isolated").where, c01e.isolated_fact(chk)):
+        check_isolated_pinned(chk)
+    why = c01e.history_fact(chk, c01e.OBJECT_QUERIES, process=True)
+    if why is not None:
+        chk.ok("history-independent", "-", f"call histories not evaluable ({why[:120]}); the effect analysis above is the decision")
 
 
 def check_effects(chk) -> None:
@@ -81,7 +92,7 @@ def check_effects(chk) -> None:
 
 
 
-def check_removals(chk) -> None:
+def check_pseudoknots_pinned(chk) -> None:
     repo = chk.repo
     # ---- without_pseudoknots ---------------------------------------------------------------
     wp = repo.func(MOD, "DotBracket.without_pseudoknots")
@@ -134,6 +145,12 @@ def check_removals(chk) -> None:
         "BpSeq.without_pseudoknots is not from_dotbracket(self.dot_bracket.without_pseudoknots())",
         K(bwp, "result"),
     )
+
+
+
+def check_isolated_pinned(chk) -> None:
+    repo = chk.repo
+    from sa.defuse import Inliner
 
     # ---- without_isolated -------------------------------------------------------------------
     wi = repo.func(MOD, "BpSeq.without_isolated")
